@@ -82,8 +82,12 @@ void WriterFull(W* w) {
   WriteWith(w, std::ref(x));
   Unbounded<int>* ub = nullptr;
   Unbounded<External>* us = nullptr;
+  UnboundedSmall<int>* usi = nullptr;
+  UnboundedSmall<External>* use = nullptr;
   WriteWith(w, *ub);
   WriteWith(w, *us);
+  WriteWith(w, *usi);
+  WriteWith(w, *use);
   BoundedWriter<W> bounded{w, 16};
   WriteAll(&bounded, Scalars{});
   WriteAll(&bounded, Containers{});
@@ -111,8 +115,12 @@ void ReaderFull(R* r) {
   ReadWith(r, &ref);
   Unbounded<int>* ub = nullptr;
   Unbounded<External>* us = nullptr;
+  UnboundedSmall<int>* usi = nullptr;
+  UnboundedSmall<External>* use = nullptr;
   ReadWith(r, ub);
   ReadWith(r, us);
+  ReadWith(r, usi);
+  ReadWith(r, use);
   BoundedReader<R> bounded{r, 16};
   ReadAll(&bounded, Scalars{});
   ReadAll(&bounded, Containers{});
